@@ -38,9 +38,9 @@ def gen_family(rng, family, n):
     elif family == "allzerovol":
         stream, _ = gen.gen_stream(rng, n, price_style=rng.choice(["walk", "ints", "jumpy"]), ts_style="regular", step=60)
         stream = [r[:5] + (0,) for r in stream]
-    elif family in ("walk-flat", "flat-walk", "one-jump", "walk-longflat"):
+    elif family in ("walk-flat", "flat-walk", "one-jump", "walk-longflat", "walk-verylongflat"):
         k = rng.randint(0, n)
-        if family == "walk-longflat":  # a short lively start, then a long quiet tail in which smoothed quantities decay to exactly 0
+        if family in ("walk-longflat", "walk-verylongflat"):  # a short lively start, then a long quiet tail in which smoothed quantities decay to exactly 0
             k, family = min(n, rng.randint(2, 8)), "walk-flat"
         walk, _ = gen.gen_prices(rng, n, rng.choice(["walk", "ints", "jumpy", "small"]))
         ts, _ = gen.gen_timestamps(rng, n, "regular", 60)
@@ -231,8 +231,22 @@ def case(rng, idx, params):
     n = rng.randint(need, need + (30 if size <= 100 else size // 2)) if rng.random() < 0.85 else rng.randint(0, size)
     if family == "walk-longflat":
         n = need + rng.randint(25, 60)
+    if family == "walk-verylongflat":
+        # a quiet tail of more than a thousand candles on the smallest periods: a smoothed range that decays geometrically (x 1/2 per
+        # candle) and is NOT snapped to 0 by the rounding of its helper reaches the subnormals, and 100 / it overflows
+        kind = ["ADX", "ATR", "KC", "Supertrend", "RSI", "TSI", "RMA", "EMA", "MACD", "STOCH"][idx % 10]
+        kw, need = gen_kwargs(rng, kind)
+        for key in ("period", "fast_period", "period_signal", "smooth_period", "signal_period"):
+            if key in kw:
+                kw[key] = 2
+        if "slow_period" in kw:
+            kw["slow_period"] = 3
+        kw.pop("round_value", None)
+        n = 1100
     stream, tf, fill = gen_family(rng, family, n)
     (init, chunks), shape = gen.gen_schedule(rng, len(stream))
+    if family == "walk-verylongflat":
+        (init, chunks), shape = (len(stream), []), "batch"
     scn = {"prop": "C09", "kind": kind, "kwargs": kw, "tf": tf, "fill": fill, "family": family, "stream": stream, "init": init, "chunks": chunks,
            "bare_single": rng.random() < 0.5}
     viol, info = check(scn)
